@@ -15,14 +15,34 @@ Part B  (E1) border points: angles -180..180 step 3.7 deg plus the multiples of
 Part C  (E2) random users: `numpy.random.random_sample` is a scripted seam; every
         draw is a choice point over {default, 0, .07, .25, .5, .77, .93, 1-2^-53};
         all answer vectors with <= D non-default draws are executed
-        (`add_random_users(2, ...)`, `add_random_users_in_sector`); afterwards every
-        user is inside the cell's own polygon and >= min_dist*r from the centre.
+        (`add_random_users(n, ...)`, `add_random_users_in_sector`); afterwards every
+        user is inside the cell's own polygon (and the requested sector) and
+        >= min_dist*r from the centre.  The default answers address 12 directions
+        at 0.7035 r, those the ORACLE accepts for the cell at hand first; a run that
+        exceeds the horizon is reported as a livelock.  Bounds (measured cost:
+        17k..98k executions per configuration at D=4): quick D<=2 with two users on
+        594 configurations, D<=3 on 108, D<=4 on 6; thorough D<=2 and D<=3 on all
+        1782, D<=4 on 216, D<=5 on 6, D<=6 on 1 -- the evidence lists them.
 Part D  (E1) clusters: sizes x cell types x radii x positions x rotations:
         congruent cells, centroid, nearest-neighbour distance, shared edges, no
         overlap, rotation covariance, wrap-around lattice (19 cells), user-to-cell
         distance matrices against a double loop.
 Part E  (E1) generate_random_points_in_circle / _rectangle for every vector of
         scripted draws over the alphabet.
+Part F  setter histories on ONE object: every sequence of <= 2 (thorough 3) events
+        out of {pos, radius, rotation (, inner_pos for CellWrap)} x 2 values, a full
+        query after the constructor and after every event, compared with the
+        vertex model and with a FRESH object built with the current parameters
+        (vertices, attributes, containment probes, border points, users moved
+        with the cell, scripted placement at the end).
+Part G  every ordered pair (thorough: + triples) of cluster constructions out of 12
+        specifications, each sequence in a fresh forked process (class-level
+        caches), every cluster checked like in D.
+Part H  aliasing: returned arrays scribbled over and re-queried; argument arrays
+        (incl. non-contiguous views) unchanged, reused, modified between calls.
+Part I  dtypes: int / numpy integer / numpy float scalars for positions, sizes,
+        rotations, angles, points, counts against the float-parameter object; and the
+        scale family r in {1e-6, 1e6} runs through A-D and C.
 """
 import itertools
 import math
@@ -48,7 +68,10 @@ RULE = ("A/B: every shape kind {Hexagon, Rectangle 1:1 and 4:1, Circle, Cell, Ce
         "random_sample answers with <= D non-default draws (E2), oracle = crossing number + centre "
         "distance of every placed user. D: every cluster size x type x radius x pos x rotation, "
         "oracle = brute-force pairwise distances / shared vertices / interior probes. E: every draw "
-        "vector over the alphabet. A case is non-trivial when it decides something: a lattice with "
+        "vector over the alphabet. F: every setter history <= depth on one object vs model and fresh "
+        "object. G: every ordered pair/triple of cluster constructions in a fresh process. H/I: aliasing, "
+        "dtype and scale families. Quick uses a covering design over pos x radius x rotation, thorough the "
+        "full product. A case is non-trivial when it decides something: a lattice with "
         "points on both sides, an angle hitting a polygon edge, a placement with a rejected attempt "
         "or an accepted non-default draw, a cluster with > 1 cell; distinct = distinct configuration "
         "(and distinct placement outcome for C)")
@@ -249,12 +272,36 @@ def shape_centre(kind, pos, r):
     return pos + WRAP_OFFSET * r if kind.startswith("CellWrap(") else pos
 
 
-def shape_configs():
+SCALES = [1e-6, 1e6]          # tiny and huge radii; the position scales along (pos = r (1+2j))
+
+
+def pos_radius_pairs():
+    return [(p, r) for r in RADII for p in POS]
+
+
+def shape_configs(tier="thorough"):
+    """thorough: the full product kind x pos x radius x rotation.  quick: a covering design -- every kind with
+    every rotation twice, the (pos, radius) pair cycling so that all 9 pairs and every (rotation, pos) /
+    (rotation, radius) combination class occur for every kind.  Both: the scale family."""
+    pairs = pos_radius_pairs()
     for kind in SHAPE_KINDS:
-        for pos in POS:
-            for r in RADII:
-                for rot in (ROT if kind != "Circle" else [0]):
+        rots = ROT if kind != "Circle" else [0]
+        if tier == "thorough":
+            for pos in POS:
+                for r in RADII:
+                    for rot in rots:
+                        yield kind, pos, r, rot
+        elif kind == "Circle":
+            for pos, r in pairs:
+                yield kind, pos, r, 0
+        else:
+            for i, rot in enumerate(rots):
+                for k in (0, 1):
+                    pos, r = pairs[(2 * i + k) % len(pairs)]
                     yield kind, pos, r, rot
+        for sc in SCALES:
+            for rot in ([0] if kind == "Circle" else [17, 90]):
+                yield kind, sc * (1 + 2j), sc, rot
 
 
 def impl_name(obj, meth):
@@ -472,6 +519,7 @@ def random_jobs(tier):
     """[(cfg, num_users, deviation bound, split_depth)] -- the stated E2 bounds, see the evidence"""
     diag = [(POS[0], RADII[0]), (POS[1], RADII[1]), (POS[2], RADII[2])]
     full = [(p, r) for p in POS for r in RADII]
+    out = []
     if tier == "thorough":
         plan = [(RANDOM_KINDS, full, ROT, MIN_DIST, 2, 2),
                 (RANDOM_KINDS, full, ROT, MIN_DIST, 1, 3),
@@ -479,10 +527,18 @@ def random_jobs(tier):
                 (RANDOM_KINDS, diag[1:2], [45], [0.3], 1, 5),
                 (RANDOM_KINDS[1:2], diag[1:2], [45], [0.3], 1, 6)]
     else:
-        plan = [(RANDOM_KINDS, diag, ROT, MIN_DIST, 2, 2),
-                (RANDOM_KINDS, diag, [0, 45, 17], [0.0, 0.7], 1, 3),
-                (RANDOM_KINDS, diag[1:2], [45], [0.3], 1, 4)]
-    out = []
+        # covering: every kind x rotation x min_dist with the (pos, radius) pair cycling; deeper on a few
+        for kind, sector in RANDOM_KINDS:
+            for i, rot in enumerate(ROT):
+                for m, md in enumerate(MIN_DIST):
+                    pos, r = diag[(i + m) % 3]
+                    out.append(((kind, sector, pos, r, rot, md), 2, 2, 0))
+        plan = [(RANDOM_KINDS, diag[1:2], [45], [0.7], 1, 3),
+                (RANDOM_KINDS, diag[2:3], [17], [0.3], 1, 3),
+                (RANDOM_KINDS[:2], diag[1:2], [45], [0.3], 1, 4)]
+    for sc in SCALES:
+        for kind, sector in RANDOM_KINDS:
+            out.append(((kind, sector, sc * (1 + 2j), sc, 17, 0.3), 1, 2, 0))
     for kinds, pairs, rots, mds, nusers, bound in plan:
         for kind, sector in kinds:
             for pos, r in pairs:
@@ -558,89 +614,88 @@ def make_random_run(chk, cfg, nusers, region, record=None, fails=None):
 
     def run(ctx):
         """returns True when the execution ran into the horizon (livelock)"""
-        case = dict(case0)
+        case = dict(case0, choices=ctx.choices)      # live list: an exception report carries the prefix run so far
         result = [False]
         with chk.guard(("random_user", kind), case):
             result[0] = run_guarded(ctx, case)
         return result[0]
 
     def run_guarded(ctx, case):
-        if True:
-            obj = build_shape(kind, pos, r, rot)
-            draws = []
+        obj = build_shape(kind, pos, r, rot)
+        draws = []
 
-            st = [0, False]       # [index into `cycle` of the current default direction, x of this attempt deviated]
+        st = [0, False]       # [index into `cycle` of the current default direction, x of this attempt deviated]
 
-            def answer(k):
-                isx = (k % 2 == 1)
-                c = ctx.choose(len(ALPHA) + 1, "x" if isx else "y")
-                val = DEFAULTS[2 * cycle[st[0]] + (0 if isx else 1)] if c == 0 else ALPHA[c - 1]
-                if isx:
-                    st[1] = c != 0
-                elif c == 0 and not st[1]:
-                    st[0] = (st[0] + 1) % NDIR      # a fully default attempt was consumed: next direction
-                draws.append(val)
-                return val
+        def answer(k):
+            isx = (k % 2 == 1)
+            c = ctx.choose(len(ALPHA) + 1, "x" if isx else "y")
+            val = DEFAULTS[2 * cycle[st[0]] + (0 if isx else 1)] if c == 0 else ALPHA[c - 1]
+            if isx:
+                st[1] = c != 0
+            elif c == 0 and not st[1]:
+                st[0] = (st[0] + 1) % NDIR      # a fully default attempt was consumed: next direction
+            draws.append(val)
+            return val
 
-            su = ScriptedUniform(answer)
-            livelock = False
-            try:
-                with patched((np.random, "random_sample", su.random_sample)):
-                    if sector:
-                        obj.add_random_users_in_sector(nusers, sector, None, md)
-                    else:
-                        obj.add_random_users(nusers, None, md)
-            except Horizon:
-                livelock = True
-            case["choices"] = list(ctx.choices)
-            chk.count("eval_placement_executions")
-            if livelock:
-                fail(("random_user", kind, "rejection_loop_never_accepts"), case,
-                     observed="more than %d draws" % HORIZON,
-                     expected="an acceptable default draw is offered within %d attempts" % NDIR)
-                return True
-            users = list(obj.users)
-            if len(users) != nusers:
-                fail(("random_user", kind, "number_of_users"), case, observed=len(users), expected=nusers)
-                return False
-            nattempts = len(draws) // 2
-            accepted = []
-            for usr in users:
-                p = complex(usr.pos)
-                bd = bdist1(own, p)
-                if bd <= TOL * rad:
-                    chk.count("excluded_tie_on_edge")
-                elif not inside1(own, p):
-                    fail(("random_user", "outside_own_polygon", kind, rc), case, observed=p,
-                             expected="inside the polygon of the cell's own vertices",
-                             msg="distance to the cell boundary %.3g r" % (bd / rad))
-                if extra is not None and bdist1(extra, p) > TOL * rad and not inside1(extra, p):
-                    fail(("random_user", "outside_requested_sector", kind), case, observed=p,
-                             expected="inside sector %d" % sector)
-                if abs(p - centre) < md * rad * (1 - 1e-12):
-                    fail(("random_user", "closer_than_min_dist", kind), case, observed=abs(p - centre) / rad,
-                             expected=">= %r" % md)
-                rp = usr.relative_pos
-                if not sector and (rp is None or abs(complex(rp) - (p - centre)) > TOL * rad):
-                    fail(("random_user", "relative_pos", kind), case, observed=rp, expected=p - centre)
-                # which pair of consecutive draws produced it
-                for j in range(nattempts):
-                    q = centre + complex(2 * (draws[2 * j] - 0.5) * rad, 2 * (draws[2 * j + 1] - 0.5) * rad)
-                    if abs(q - p) <= TOL * rad:
-                        accepted.append(j)
-                        break
+        su = ScriptedUniform(answer)
+        livelock = False
+        try:
+            with patched((np.random, "random_sample", su.random_sample)):
+                if sector:
+                    obj.add_random_users_in_sector(nusers, sector, None, md)
                 else:
-                    fail(("random_user", "position_not_from_draws", kind), case, observed=p,
-                             expected="pos + 2(u-0.5) r for a pair of consecutive draws")
-            chk.count("placed_users", len(users))
-            if nattempts > nusers or ctx.deviations:
-                chk.count("nontrivial_placements")
-                chk.nontriv(("random", kind, sector, pos, r, rot, md, nusers, nattempts, tuple(accepted),
-                             ctx.deviations))
-            chk.outcome("placement_attempts", nattempts)
-            if record is not None:
-                record.append((nattempts, tuple(complex(u.pos) for u in users)))
+                    obj.add_random_users(nusers, None, md)
+        except Horizon:
+            livelock = True
+        case["choices"] = list(ctx.choices)
+        chk.count("eval_placement_executions")
+        if livelock:
+            fail(("random_user", kind, "rejection_loop_never_accepts"), case,
+                 observed="more than %d draws" % HORIZON,
+                 expected="an acceptable default draw is offered within %d attempts" % NDIR)
+            return True
+        users = list(obj.users)
+        if len(users) != nusers:
+            fail(("random_user", kind, "number_of_users"), case, observed=len(users), expected=nusers)
             return False
+        nattempts = len(draws) // 2
+        accepted = []
+        for usr in users:
+            p = complex(usr.pos)
+            bd = bdist1(own, p)
+            if bd <= TOL * rad:
+                chk.count("excluded_tie_on_edge")
+            elif not inside1(own, p):
+                fail(("random_user", "outside_own_polygon", kind, rc), case, observed=p,
+                     expected="inside the polygon of the cell's own vertices",
+                     msg="distance to the cell boundary %.3g r" % (bd / rad))
+            if extra is not None and bdist1(extra, p) > TOL * rad and not inside1(extra, p):
+                fail(("random_user", "outside_requested_sector", kind), case, observed=p,
+                     expected="inside sector %d" % sector)
+            if abs(p - centre) < md * rad * (1 - 1e-12):
+                fail(("random_user", "closer_than_min_dist", kind), case, observed=abs(p - centre) / rad,
+                     expected=">= %r" % md)
+            rp = usr.relative_pos
+            if not sector and (rp is None or abs(complex(rp) - (p - centre)) > TOL * rad):
+                fail(("random_user", "relative_pos", kind), case, observed=rp, expected=p - centre)
+            # which pair of consecutive draws produced it
+            for j in range(nattempts):
+                q = centre + complex(2 * (draws[2 * j] - 0.5) * rad, 2 * (draws[2 * j + 1] - 0.5) * rad)
+                if abs(q - p) <= TOL * rad:
+                    accepted.append(j)
+                    break
+            else:
+                fail(("random_user", "position_not_from_draws", kind), case, observed=p,
+                     expected="pos + 2(u-0.5) r for a pair of consecutive draws")
+        chk.count("placed_users", len(users))
+        if nattempts > nusers or ctx.deviations:
+            chk.count("nontrivial_placements")
+            chk.nontriv(("random", kind, sector, pos, r, rot, md, nusers, nattempts, tuple(accepted),
+                         ctx.deviations))
+        chk.outcome("placement_attempts", nattempts)
+        if record is not None:
+            record.append((nattempts, tuple(complex(u.pos) for u in users)))
+        return False
     return run
 
 
@@ -721,11 +776,19 @@ def run_random(chk, cfg, bound, nusers, split_depth=0, shard_i=0, shard_n=1):
 def cluster_configs(tier):
     hexs = [(n, t) for t in ("simple", "3sec") for n in (1, 3, 4, 7, 13, 19)]
     sqs = [(n, "square") for n in (1, 4, 9, 16)]
-    for n, t in hexs + sqs:
-        for r in (1.0, 2.5):
-            for pos in POS:
+    combos = [(r, pos) for r in (1.0, 2.5) for pos in POS]
+    for k, (n, t) in enumerate(hexs + sqs):
+        if tier == "thorough":
+            for r, pos in combos:
                 for rot in ROT:
                     yield n, t, r, pos, rot
+        else:
+            # covering: every (size, type) with every rotation, (radius, pos) cycling through all 6 combinations
+            for i, rot in enumerate(ROT):
+                r, pos = combos[(i + k) % len(combos)]
+                yield n, t, r, pos, rot
+        for sc in SCALES:
+            yield n, t, sc, sc * (1 + 1j), 17
 
 
 def interior_probes(v, c):
@@ -739,82 +802,105 @@ def interior_probes(v, c):
     return np.array(out, dtype=complex)
 
 
+def check_cluster_geometry(chk, cl, n, ctype, r, pos, rot, case, sig0):
+    """everything that can be said about ONE constructed cluster without building anything else;
+    returns (cells, centre positions) or None"""
+    cells = list(cl)
+    chk.count("eval_clusters")
+    if len(cells) != n or cl.num_cells != n:
+        chk.fail(sig0 + ("number_of_cells",), case, observed=len(cells), expected=n)
+        return None
+    P = np.array([complex(c.pos) for c in cells])
+    V = [np.array(c.vertices, dtype=complex) for c in cells]
+    cname = {"simple": "Cell", "3sec": "Cell3Sec", "square": "CellSquare"}[ctype]
+    step = r * math.sqrt(3) if ctype != "square" else r
+    circ = r if ctype != "square" else r / math.sqrt(2)       # circum-radius of one cell
+    kindname = {"simple": "Cell", "3sec": "Cell3Sec", "square": "CellSquare"}[ctype]
+    for i, c in enumerate(cells):
+        if type(c).__name__ != cname or c.id != i + 1:
+            chk.fail(sig0 + ("cell_class_or_id",), case, observed=(type(c).__name__, c.id), expected=(cname, i + 1))
+        if abs(complex(c.rotation) - rot) > 1e-12:
+            chk.fail(sig0 + ("cell_rotation",), case, observed=c.rotation, expected=rot)
+        # congruent: same polygon relative to the own centre, and it is the model polygon
+        if V[i].shape != V[0].shape or np.max(np.abs((V[i] - P[i]) - (V[0] - P[0]))) > TOL * r:
+            chk.fail(sig0 + ("cells_not_congruent",), dict(case, cell=i + 1), observed=V[i] - P[i],
+                     expected=V[0] - P[0])
+    mv, _ = model_vertices(kindname, P[0], circ, rot)
+    if not same_point_set(V[0], mv, TOL * r):
+        chk.fail(sig0 + ("cell_polygon_differs_from_model",), case, observed=V[0], expected=mv)
+    cen = complex(np.mean(P))
+    if abs(cen - pos) > TOL * r:
+        chk.fail(sig0 + ("centroid_not_cluster_pos",), case, observed=cen, expected=pos)
+    if abs(complex(cl.pos) - pos) > 0:
+        chk.fail(sig0 + ("pos_attribute",), case, observed=cl.pos, expected=pos)
+    # brute-force pairwise centre distances
+    D = np.zeros((n, n))
+    for i in range(n):
+        for j in range(n):
+            D[i, j] = abs(P[i] - P[j])
+    nn_pairs = []
+    if n > 1:
+        chk.nontriv(("cluster", n, ctype, r, pos, rot))
+        off = D + np.diag([np.inf] * n)
+        dmin = float(off.min())
+        if abs(dmin - step) > TOL * r:
+            chk.fail(sig0 + ("min_centre_distance",), case, observed=dmin, expected=step,
+                     msg="two apothems (hexagons) / one side (squares)")
+        if ctype == "simple" and abs(2 * cells[0].height - dmin) > TOL * r:
+            chk.fail(sig0 + ("min_centre_distance_vs_cell_height",), case, observed=dmin,
+                     expected=2 * cells[0].height)
+        for i in range(n):
+            if abs(float(off[i].min()) - step) > TOL * r:
+                chk.fail(sig0 + ("cell_without_touching_neighbour",), dict(case, cell=i + 1),
+                         observed=float(off[i].min()), expected=step)
+            for j in range(i + 1, n):
+                if abs(D[i, j] - step) <= TOL * r:
+                    nn_pairs.append((i, j))
+        # neighbours share an edge (>= 2 vertices); nobody's interior meets another cell
+        for i, j in nn_pairs:
+            shared = sum(1 for a in V[i] if np.min(np.abs(V[j] - a)) <= TOL * r)
+            need = 3 if ctype == "3sec" else 2
+            if shared != need:
+                chk.fail(sig0 + ("neighbours_do_not_share_an_edge",), dict(case, cells=[i + 1, j + 1]),
+                         observed=shared, expected=need, msg="number of common vertices of two nearest neighbours")
+        for i in range(n):
+            probes = interior_probes(V[i], P[i])
+            for j in range(n):
+                if j != i and D[i, j] < 2.5 * step:
+                    ins = crossing_inside(V[j], probes)
+                    chk.count("eval_overlap_probes", len(probes))
+                    if ins.any():
+                        chk.fail(sig0 + ("cells_overlap",), dict(case, cells=[i + 1, j + 1]),
+                                 observed=probes[np.nonzero(ins)[0][0]],
+                                 expected="no interior point of a cell lies inside another cell")
+                        break
+    # orientation: every centre difference is an integer combination of the lattice basis rotated by `rot`
+    if n > 1:
+        b1 = complex(step * np.exp(1j * math.radians(30.0))) if ctype != "square" else complex(step, 0.0)
+        b2 = complex(0.0, step)
+        rel = rot_c(P - P[0], -float(np.real(rot)))
+        det = b1.real * b2.imag - b1.imag * b2.real          # rel = ii*b1 + jj*b2, Cramer's rule
+        ii = (rel.real * b2.imag - rel.imag * b2.real) / det
+        jj = (b1.real * rel.imag - b1.imag * rel.real) / det
+        off_lat = float(max(np.max(np.abs(ii - np.round(ii))), np.max(np.abs(jj - np.round(jj)))))
+        if off_lat > 1e-8:
+            chk.fail(sig0 + ("centres_not_on_the_rotated_lattice",), case, observed=off_lat,
+                     expected="integer lattice coordinates in the basis rotated by `rotation`")
+    chk.outcome("cluster_layouts", (n, ctype, rotcond(rot), len(nn_pairs)))
+    return cells, P
+
+
 def run_cluster(chk, n, ctype, r, pos, rot):
     from pyphysim.cell import cell
     case = {"part": "cluster", "num_cells": n, "cell_type": ctype, "cell_radius": r, "pos": pos, "rotation": rot}
     sig0 = ("cluster", ctype)
     with chk.guard(sig0, case):
         cl = cell.Cluster(cell_radius=r, num_cells=n, pos=pos, cell_type=ctype, rotation=rot)
-        cells = list(cl)
-        chk.count("eval_clusters")
-        if len(cells) != n or cl.num_cells != n:
-            chk.fail(sig0 + ("number_of_cells",), case, observed=len(cells), expected=n)
+        got = check_cluster_geometry(chk, cl, n, ctype, r, pos, rot, case, sig0)
+        if got is None:
             return
-        P = np.array([complex(c.pos) for c in cells])
-        V = [np.array(c.vertices, dtype=complex) for c in cells]
-        cname = {"simple": "Cell", "3sec": "Cell3Sec", "square": "CellSquare"}[ctype]
+        cells, P = got
         step = r * math.sqrt(3) if ctype != "square" else r
-        circ = r if ctype != "square" else r / math.sqrt(2)       # circum-radius of one cell
-        kindname = {"simple": "Cell", "3sec": "Cell3Sec", "square": "CellSquare"}[ctype]
-        for i, c in enumerate(cells):
-            if type(c).__name__ != cname or c.id != i + 1:
-                chk.fail(sig0 + ("cell_class_or_id",), case, observed=(type(c).__name__, c.id), expected=(cname, i + 1))
-            if abs(complex(c.rotation) - rot) > 1e-12:
-                chk.fail(sig0 + ("cell_rotation",), case, observed=c.rotation, expected=rot)
-            # congruent: same polygon relative to the own centre, and it is the model polygon
-            if V[i].shape != V[0].shape or np.max(np.abs((V[i] - P[i]) - (V[0] - P[0]))) > TOL * r:
-                chk.fail(sig0 + ("cells_not_congruent",), dict(case, cell=i + 1), observed=V[i] - P[i],
-                         expected=V[0] - P[0])
-        mv, _ = model_vertices(kindname, P[0], circ, rot)
-        if not same_point_set(V[0], mv, TOL * r):
-            chk.fail(sig0 + ("cell_polygon_differs_from_model",), case, observed=V[0], expected=mv)
-        cen = complex(np.mean(P))
-        if abs(cen - pos) > TOL * r:
-            chk.fail(sig0 + ("centroid_not_cluster_pos",), case, observed=cen, expected=pos)
-        if abs(complex(cl.pos) - pos) > 0:
-            chk.fail(sig0 + ("pos_attribute",), case, observed=cl.pos, expected=pos)
-        # brute-force pairwise centre distances
-        D = np.zeros((n, n))
-        for i in range(n):
-            for j in range(n):
-                D[i, j] = abs(P[i] - P[j])
-        nn_pairs = []
-        if n > 1:
-            chk.nontriv(("cluster", n, ctype, r, pos, rot))
-            off = D + np.diag([np.inf] * n)
-            dmin = float(off.min())
-            if abs(dmin - step) > TOL * r:
-                chk.fail(sig0 + ("min_centre_distance",), case, observed=dmin, expected=step,
-                         msg="two apothems (hexagons) / one side (squares)")
-            if ctype == "simple" and abs(2 * cells[0].height - dmin) > TOL * r:
-                chk.fail(sig0 + ("min_centre_distance_vs_cell_height",), case, observed=dmin,
-                         expected=2 * cells[0].height)
-            for i in range(n):
-                if abs(float(off[i].min()) - step) > TOL * r:
-                    chk.fail(sig0 + ("cell_without_touching_neighbour",), dict(case, cell=i + 1),
-                             observed=float(off[i].min()), expected=step)
-                for j in range(i + 1, n):
-                    if abs(D[i, j] - step) <= TOL * r:
-                        nn_pairs.append((i, j))
-            # neighbours share an edge (>= 2 vertices); nobody's interior meets another cell
-            for i, j in nn_pairs:
-                shared = sum(1 for a in V[i] if np.min(np.abs(V[j] - a)) <= TOL * r)
-                need = 3 if ctype == "3sec" else 2
-                if shared != need:
-                    chk.fail(sig0 + ("neighbours_do_not_share_an_edge",), dict(case, cells=[i + 1, j + 1]),
-                             observed=shared, expected=need, msg="number of common vertices of two nearest neighbours")
-            for i in range(n):
-                probes = interior_probes(V[i], P[i])
-                for j in range(n):
-                    if j != i and D[i, j] < 2.5 * step:
-                        ins = crossing_inside(V[j], probes)
-                        chk.count("eval_overlap_probes", len(probes))
-                        if ins.any():
-                            chk.fail(sig0 + ("cells_overlap",), dict(case, cells=[i + 1, j + 1]),
-                                     observed=probes[np.nonzero(ins)[0][0]],
-                                     expected="no interior point of a cell lies inside another cell")
-                            break
-        chk.outcome("cluster_layouts", (n, ctype, rotcond(rot), len(nn_pairs)))
         # rotation covariance against the unrotated cluster of the same parameters
         if rot != 0:
             c0 = cell.Cluster(cell_radius=r, num_cells=n, pos=pos, cell_type=ctype, rotation=0)
@@ -949,10 +1035,447 @@ def run_pp(chk, fn, npts, a, b, only=None):
 
 
 # ----------------------------------------------------------------------
+# Part F: setter histories on ONE object (set -> query -> set -> query), differential against a fresh object
+# ----------------------------------------------------------------------
+HIST_KINDS = ["Hexagon", "Rectangle1x1", "Rectangle4x1", "Circle", "Cell", "Cell3Sec", "CellSquare",
+              "CellWrap(Cell)", "CellWrap(Cell3Sec)", "CellWrap(CellSquare)"]
+HIST_START = (1 + 2j, 1.0, 17)
+HIST_VALUES = {"pos": [-3.5 + 0.25j, 0j], "radius": [2.5, 0.5], "rotation": [45, -30], "inner_pos": [4 - 4j]}
+
+
+def history_events(kind):
+    fam = family(kind)
+    names = ["pos"]
+    if fam != "Rectangle":
+        names.append("radius")       # a Rectangle is sized by its corners: no way to resize it (assumption)
+    if fam != "Circle":
+        names.append("rotation")
+    if kind.startswith("CellWrap("):
+        names.append("inner_pos")    # moving the wrapped cell must not move the wrapper
+    return [(nm, v) for nm in names for v in HIST_VALUES[nm]]
+
+
+def histories(kind, depth):
+    evs = history_events(kind)
+    for d in range(1, depth + 1):
+        for h in itertools.product(evs, repeat=d):
+            yield h
+
+
+def apply_event(kind, obj, ev):
+    name, val = ev
+    if kind.startswith("CellWrap("):
+        if name == "pos":
+            obj.pos = val
+        elif name == "inner_pos":
+            obj._wrapped_cell.pos = val
+        else:
+            setattr(obj._wrapped_cell, name, val)
+    else:
+        setattr(obj, name, val)
+
+
+def scripted_defaults(limit=10 * NDIR):
+    k = [0]
+
+    def answer(_):
+        k[0] += 1
+        if k[0] > limit:
+            raise Horizon("rejection loop never accepts a default draw")
+        return DEFAULTS[(k[0] - 1) % len(DEFAULTS)]
+    return ScriptedUniform(answer)
+
+
+def observe(kind, obj, centre, r, rot):
+    """what a user can see of the geometry: vertices, attributes, containment of fixed probes, border points,
+    and (cells) where a scripted random user lands in a COPY-free way (placement on a scratch twin is not
+    possible, so placement is observed only at the end of a history)"""
+    fam = family(kind)
+    v = np.array(obj.vertices, dtype=complex)
+    mv, _ = model_vertices(kind, centre, r, rot)
+    mvl = [complex(z) for z in mv]
+    probes = []
+    if fam == "Circle":
+        for k in range(6):
+            u = np.exp(1j * math.radians(60.0 * k + 11.0))
+            probes += [centre + 0.9 * r * u, centre + 1.1 * r * u]
+    else:
+        for i in range(len(mvl)):
+            a, b = mvl[i], mvl[(i + 1) % len(mvl)]
+            for q in (a, 0.5 * (a + b)):
+                probes += [centre + 0.9 * (q - centre), centre + 1.1 * (q - centre)]
+    inside = [bool(obj.is_point_inside_shape(q)) for q in probes]
+    bps = [complex(obj.get_border_point(a, 0.9)) for a in (10.0, 100.0, -125.0)]
+    attrs = {"pos": complex(obj.pos), "radius": float(np.real(obj.radius)), "rotation": complex(obj.rotation)}
+    if hasattr(obj, "height"):
+        attrs["height"] = float(obj.height)
+    if hasattr(obj, "secradius"):
+        attrs["secradius"] = float(obj.secradius)
+    return v, inside, bps, attrs, mv
+
+
+def place_users(kind, obj):
+    """scripted placement (default stream) -> positions; cells only"""
+    base = kind[9:-1] if kind.startswith("CellWrap(") else kind
+    if kind.startswith("CellWrap(") or base not in ("Cell", "Cell3Sec", "CellSquare"):
+        return []
+    n0 = len(obj.users)
+    su = scripted_defaults()
+    with patched((np.random, "random_sample", su.random_sample)):
+        obj.add_random_user(None, 0.3)
+        if base == "Cell3Sec":
+            for k in (1, 2, 3):
+                obj.add_random_user_in_sector(k, None, 0.3)
+    return [complex(u.pos) for u in obj.users[n0:]]
+
+
+def run_history(chk, kind, hist):
+    pos0, r0, rot0 = HIST_START
+    case = {"part": "history", "kind": kind, "start": {"pos": pos0, "radius": r0, "rotation": rot0},
+            "events": [[nm, v] for nm, v in hist]}
+    fam = family(kind)
+    with chk.guard(("history", fam), case):
+        obj = build_shape(kind, pos0, r0, rot0)
+        centre, r, rot = shape_centre(kind, pos0, r0), r0, rot0
+        is_cell = kind in ("Cell", "Cell3Sec", "CellSquare")
+        first_users = place_users(kind, obj) if is_cell else []
+        offsets = [u - centre for u in first_users]
+        observe(kind, obj, centre, r, rot)            # use once: whatever can be cached is cached now
+        chk.states += 1
+        last = "constructor"
+        for ev in hist:
+            apply_event(kind, obj, ev)
+            chk.transitions += 1
+            chk.traces_validated += 1
+            name, val = ev
+            last = name + "_setter"
+            if name == "pos":
+                centre = complex(val)
+            elif name == "radius":
+                r = float(val)
+            elif name == "rotation":
+                rot = val
+            # fresh object configured directly with the current parameters
+            if kind.startswith("CellWrap("):
+                fresh = build_shape(kind, 0j, r, rot)
+                fresh.pos = centre
+            else:
+                fresh = build_shape(kind, centre, r, rot)
+            got = observe(kind, obj, centre, r, rot)
+            want = observe(kind, fresh, centre, r, rot)
+            chk.count("eval_history_states")
+            sig = ("history", fam, last)
+            tol = TOL * max(r, r0)
+            if not same_point_set(got[0], got[4], tol):
+                chk.fail(sig + ("vertices_differ_from_model",), case, observed=got[0], expected=got[4],
+                         msg="after the events the own vertices are not the shape given by the current pos/radius/rotation")
+                return
+            if got[0].shape != want[0].shape or np.max(np.abs(got[0] - want[0])) > tol:
+                chk.fail(sig + ("vertices_differ_from_fresh_object",), case, observed=got[0], expected=want[0])
+                return
+            for key in want[3]:
+                if abs(complex(got[3][key]) - complex(want[3][key])) > tol:
+                    chk.fail(sig + ("attribute_" + key + "_differs_from_fresh_object",), case, observed=got[3][key],
+                             expected=want[3][key])
+                    return
+            if got[1] != want[1]:
+                chk.fail(sig + ("containment_differs_from_fresh_object",), case, observed=got[1], expected=want[1])
+                return
+            if max(abs(a - b) for a, b in zip(got[2], want[2])) > tol:
+                chk.fail(sig + ("border_point_differs_from_fresh_object",), case, observed=got[2], expected=want[2])
+                return
+            if is_cell and name == "pos":
+                now = [complex(u.pos) for u in obj.users[:len(offsets)]]
+                if any(abs(p - (centre + o)) > tol for p, o in zip(now, offsets)):
+                    chk.fail(sig + ("users_did_not_move_with_the_cell",), case, observed=now,
+                             expected=[centre + o for o in offsets])
+                    return
+        # at the end: scripted placement on the used object == on a fresh object, inside the model polygon
+        if is_cell:
+            fresh = build_shape(kind, centre, r, rot)
+            a, b = place_users(kind, obj), place_users(kind, fresh)
+            sig = ("history", fam, last)
+            if len(a) != len(b) or any(abs(x - y) > TOL * max(r, r0) for x, y in zip(a, b)):
+                chk.fail(sig + ("placement_differs_from_fresh_object",), case, observed=a, expected=b)
+        chk.nontriv(("history", kind, tuple((nm, complex(v)) for nm, v in hist)))
+        chk.outcome("history_last_event", (fam, last, len(hist)))
+
+
+# ----------------------------------------------------------------------
+# Part G: several clusters built one after the other in ONE fresh process (class-level state)
+# ----------------------------------------------------------------------
+SEQ_SPECS = [(3, "simple", 0), (3, "simple", 17), (4, "simple", 0), (4, "simple", 17), (13, "simple", 0),
+             (13, "simple", 17), (7, "simple", 30), (13, "3sec", 17), (3, "3sec", -30), (19, "3sec", 0),
+             (4, "square", 17), (9, "square", 0)]
+
+
+def cluster_sequences(tier):
+    idx = range(len(SEQ_SPECS))
+    for a in idx:
+        for b in idx:
+            yield (a, b)
+    if tier == "thorough":
+        for t in itertools.product(range(6), repeat=3):
+            yield t
+
+
+def _sequence_body(chk, seq):
+    from pyphysim.cell import cell
+    built = []
+    for k, i in enumerate(seq):
+        n, ctype, rot = SEQ_SPECS[i]
+        r = (1.0, 2.5)[k % 2]
+        pos = POS[(k + 1) % 3]
+        built.append((cell.Cluster(cell_radius=r, num_cells=n, pos=pos, cell_type=ctype, rotation=rot),
+                      n, ctype, r, pos, rot))
+    for k, (cl, n, ctype, r, pos, rot) in enumerate(built):
+        case = {"part": "cluster_sequence", "sequence": list(seq), "index": k,
+                "specs": [list(SEQ_SPECS[i]) for i in seq]}
+        sig0 = ("cluster_after_other_clusters", ctype)
+        with chk.guard(sig0, case):
+            check_cluster_geometry(chk, cl, n, ctype, r, pos, rot, case, sig0)
+    chk.nontriv(("cluster_sequence", tuple(seq)))
+    chk.count("eval_cluster_sequences")
+
+
+def run_cluster_sequence(chk, seq):
+    """in a forked child, so that every sequence starts from the class-level state of a process that has not
+    built any cluster yet (the caller guarantees that: these jobs run first in every worker)"""
+    import os
+    import pickle
+    rfd, wfd = os.pipe()
+    pid = os.fork()
+    if pid == 0:
+        code = 0
+        try:
+            os.close(rfd)
+            child = chk.child_check()
+            _sequence_body(child, seq)
+            with os.fdopen(wfd, "wb") as f:
+                pickle.dump(child.state(), f)
+        except BaseException:  # noqa
+            code = 3
+        os._exit(code)
+    os.close(wfd)
+    with os.fdopen(rfd, "rb") as f:
+        data = f.read()
+    _, status = os.waitpid(pid, 0)
+    if status != 0 or not data:
+        raise Broken("cluster-sequence child failed for %r" % (seq,))
+    chk.absorb(pickle.loads(data))
+
+
+# ----------------------------------------------------------------------
+# Part H: aliasing / in-place mutation of arguments and returned arrays
+# ----------------------------------------------------------------------
+def run_aliasing(chk, kind):
+    from pyphysim.cell import cell, shapes
+    pos, r, rot = 1 + 2j, 2.5, 17
+    case = {"part": "aliasing", "kind": kind}
+    with chk.guard(("aliasing", kind), case):
+        chk.count("eval_aliasing_cases")
+        if kind == "calc_rotated_pos":
+            for arr in (np.array([1 + 2j, -3j, 0.5]), np.arange(10)[::3], np.arange(12.0).reshape(3, 4).T[1]):
+                keep = arr.copy()
+                out1 = shapes.Shape.calc_rotated_pos(arr, 33.0)
+                out2 = shapes.Shape.calc_rotated_pos(arr, 33.0)
+                if not np.array_equal(arr, keep) or arr.dtype != keep.dtype:
+                    chk.fail(("aliasing", "calc_rotated_pos", "argument_modified"), case, observed=arr, expected=keep)
+                if np.shares_memory(out1, arr) or not np.array_equal(out1, out2) or \
+                        np.max(np.abs(out1 - keep * np.exp(1j * math.radians(33.0)))) > 1e-12 * 12:
+                    chk.fail(("aliasing", "calc_rotated_pos", "result"), case, observed=out1,
+                             expected=keep * np.exp(1j * math.radians(33.0)))
+            return
+        if kind == "Cluster":
+            cl = cell.Cluster(cell_radius=r, num_cells=7, pos=pos, rotation=rot)
+            ids = np.array([1, 9, 2, 9, 3])[::2]
+            angles = np.array([10.0, 0, 100.0, 0, 200.0])[::2]
+            ratios = np.array([0.5, 0.9, 0.25])
+            keep = (ids.copy(), angles.copy(), ratios.copy())
+            cl.add_border_users(ids, angles, ratios)
+            first = [complex(u.pos) for u in cl.get_all_users()]
+            if not all(np.array_equal(x, y) for x, y in zip((ids, angles, ratios), keep)):
+                chk.fail(("aliasing", "Cluster.add_border_users", "argument_modified"), case,
+                         observed=(ids, angles, ratios), expected=keep)
+            angles += 45.0
+            ratios[:] = 0.1
+            again = [complex(u.pos) for u in cl.get_all_users()]
+            if first != again:
+                chk.fail(("aliasing", "Cluster.add_border_users", "users_follow_the_callers_array"), case,
+                         observed=again, expected=first)
+            want = [complex(cl.get_cell_by_id(int(i)).get_border_point(a, q)) for i, a, q in zip(keep[0], keep[1], keep[2])]
+            if max(abs(x - y) for x, y in zip(first, want)) > TOL * r:
+                chk.fail(("aliasing", "Cluster.add_border_users", "positions"), case, observed=first, expected=want)
+            d1 = cl.calc_dist_all_users_to_each_cell()
+            ref = d1.copy()
+            d1 += 1000.0
+            d2 = cl.calc_dist_all_users_to_each_cell()
+            if not np.array_equal(d2, ref):
+                chk.fail(("aliasing", "calc_dist_all_users_to_each_cell", "returned_array_is_shared"), case,
+                         observed=d2, expected=ref)
+            v1 = np.array(cl.vertices)
+            vv = cl.vertices
+            vv += 7.0
+            if not np.array_equal(np.array(cl.vertices), v1):
+                chk.fail(("aliasing", "Cluster.vertices", "returned_array_is_shared"), case,
+                         observed=cl.vertices, expected=v1)
+            p1 = [complex(c.pos) for c in cl]
+            cl2 = cell.Cluster(cell_radius=r, num_cells=7, pos=pos, rotation=rot)
+            if [complex(c.pos) for c in cl2] != p1 or [complex(c.pos) for c in cl] != p1:
+                chk.fail(("aliasing", "Cluster", "second_cluster_differs_or_moves_the_first"), case,
+                         observed=[complex(c.pos) for c in cl2], expected=p1)
+            return
+        obj = build_shape(kind, pos, r, rot)
+        v1 = np.array(obj.vertices, dtype=complex)
+        for attempt in ("vertices", "vertices_no_trans_no_rotation"):
+            if not hasattr(obj, attempt):
+                continue
+            arr = getattr(obj, attempt)
+            arr += (100.0 + 50j)                      # the caller scribbles over what it was handed
+            v2 = np.array(obj.vertices, dtype=complex)
+            if v2.shape != v1.shape or not np.array_equal(v2, v1):
+                chk.fail(("aliasing", family(kind), attempt, "returned_array_is_shared"), case, observed=v2, expected=v1)
+                return
+        if kind in ("Cell", "Cell3Sec", "CellSquare"):
+            angles = np.array([0.0, 7.0, 120.0, 7.0, -100.0])[::2]
+            ratios = np.array([0.5, 0.75, 0.25])
+            keep = (angles.copy(), ratios.copy())
+            obj.add_border_user(angles, ratios)
+            obj.add_border_user(angles, ratios)
+            users = [complex(u.pos) for u in obj.users]
+            if not (np.array_equal(angles, keep[0]) and np.array_equal(ratios, keep[1])):
+                chk.fail(("aliasing", "add_border_user", "argument_modified"), case, observed=(angles, ratios), expected=keep)
+            angles -= 30.0
+            ratios *= 0.5
+            want = [complex(obj.get_border_point(a, q)) for a, q in zip(keep[0], keep[1])] * 2
+            now = [complex(u.pos) for u in obj.users]
+            if now != users or len(now) != 6 or max(abs(x - y) for x, y in zip(now, want)) > TOL * r:
+                chk.fail(("aliasing", "add_border_user", "positions"), case, observed=now, expected=want)
+
+
+def run_pp_aliasing(chk):
+    from pyphysim.pointprocess import pointprocess as pp
+    case = {"part": "aliasing", "kind": "pointprocess"}
+    with chk.guard(("aliasing", "pointprocess"), case):
+        chk.count("eval_aliasing_cases")
+        outs = []
+        for _ in range(2):
+            su = scripted_defaults(100)
+            with patched((np.random, "random_sample", su.random_sample)):
+                outs.append((pp.generate_random_points_in_circle(3, 2.0, 0.5),
+                             pp.generate_random_points_in_rectangle(3, 4.0, 1.0)))
+        outs[0][0][:] = 0
+        outs[0][1][:] = 0
+        su = scripted_defaults(100)
+        with patched((np.random, "random_sample", su.random_sample)):
+            third = (pp.generate_random_points_in_circle(3, 2.0, 0.5), pp.generate_random_points_in_rectangle(3, 4.0, 1.0))
+        if not (np.array_equal(third[0], outs[1][0]) and np.array_equal(third[1], outs[1][1])):
+            chk.fail(("aliasing", "pointprocess", "results_shared_between_calls"), case, observed=third, expected=outs[1])
+
+
+# ----------------------------------------------------------------------
+# Part I: dtype / layout of the inputs (integer and numpy scalar types for positions, sizes, angles, points)
+# ----------------------------------------------------------------------
+DTYPE_FORMS = {"pyint": lambda x: int(x), "np_int64": lambda x: np.int64(x), "np_float64": lambda x: np.float64(x),
+               "np_int32": lambda x: np.int32(x)}
+
+
+def run_dtypes(chk, kind, form):
+    """integer-valued parameters given as int / numpy scalars must give the object the float parameters give"""
+    from pyphysim.cell import cell, shapes
+    conv = DTYPE_FORMS[form]
+    case = {"part": "dtypes", "kind": kind, "form": form}
+    px, r, rot = 3, 2, 30
+    with chk.guard(("dtypes", kind, form), case):
+        chk.count("eval_dtype_cases")
+        if kind == "Cluster":
+            for n, ctype in ((7, "simple"), (3, "3sec"), (4, "square")):
+                a = cell.Cluster(conv(r), n, pos=conv(px), cell_type=ctype, rotation=conv(rot))
+                b = cell.Cluster(float(r), n, pos=complex(px), cell_type=ctype, rotation=float(rot))
+                pa, pb = [complex(c.pos) for c in a], [complex(c.pos) for c in b]
+                va, vb = np.array([c.vertices for c in a]), np.array([c.vertices for c in b])
+                if max(abs(x - y) for x, y in zip(pa, pb)) > TOL * r or np.max(np.abs(va - vb)) > TOL * r:
+                    chk.fail(("dtypes", "Cluster", "layout_differs_from_float_parameters"), dict(case, cell_type=ctype),
+                             observed=pa, expected=pb)
+                ids = np.array([1, 2, 3, 2])[::2] if form != "pyint" else [1, 3]
+                nums = np.array([2, 1]) if form != "pyint" else [2, 1]
+                su = scripted_defaults(400)
+                with patched((np.random, "random_sample", su.random_sample)):
+                    try:
+                        a.add_random_users(ids, nums, None, np.array([0.0, 0.3]) if form != "pyint" else [0.0, 0.3])
+                    except AssertionError as e:
+                        chk.fail(("dtypes", "Cluster.add_random_users", "ndarray_num_users_rejected"),
+                                 dict(case, cell_type=ctype), observed="AssertionError %s" % e,
+                                 expected="documented: num_users : int | list[int] | np.ndarray")
+                        continue
+                counts = [c.num_users for c in a]
+                want = [2, 0, 1] + [0] * (len(counts) - 3)
+                if counts != want:
+                    chk.fail(("dtypes", "Cluster.add_random_users", "users_per_cell"), dict(case, cell_type=ctype),
+                             observed=counts, expected=want)
+                a.add_border_users(ids, conv(40), 0.5)
+                if [c.num_users for c in a] != [3, 0, 2] + [0] * (len(counts) - 3):
+                    chk.fail(("dtypes", "Cluster.add_border_users", "users_per_cell"), dict(case, cell_type=ctype),
+                             observed=[c.num_users for c in a], expected=[3, 0, 2])
+                d = np.asarray(a.calc_dist_all_users_to_each_cell())
+                us = [complex(u.pos) for u in a.get_all_users()]
+                ref = np.array([[abs(u - p) for p in pa] for u in us])
+                if d.shape != ref.shape or np.max(np.abs(d - ref)) > 1e-12 * (1 + np.max(ref)):
+                    chk.fail(("dtypes", "Cluster", "distance_matrix"), dict(case, cell_type=ctype), observed=d, expected=ref)
+            return
+        if kind == "Rectangle":
+            a = shapes.Rectangle(conv(px - 2), conv(px + 2) + conv(1) * 1j, conv(rot))
+            b = shapes.Rectangle(complex(px - 2), complex(px + 2, 1), float(rot))
+        elif kind == "CellSquare":
+            a = cell.CellSquare(conv(px), conv(r), cell_id=1, rotation=conv(rot))
+            b = cell.CellSquare(complex(px), float(r), cell_id=1, rotation=float(rot))
+        elif kind == "Circle":
+            a, b = shapes.Circle(conv(px), conv(r)), shapes.Circle(complex(px), float(r))
+        else:
+            ctor = {"Hexagon": shapes.Hexagon, "Cell": cell.Cell, "Cell3Sec": cell.Cell3Sec}[kind]
+            if kind == "Hexagon":
+                a, b = ctor(conv(px), conv(r), conv(rot)), ctor(complex(px), float(r), float(rot))
+            else:
+                a = ctor(conv(px), conv(r), cell_id=1, rotation=conv(rot))
+                b = ctor(complex(px), float(r), cell_id=1, rotation=float(rot))
+        va, vb = np.array(a.vertices), np.array(b.vertices)
+        if va.shape != vb.shape or not np.iscomplexobj(va) or np.max(np.abs(va - vb)) > TOL * r:
+            chk.fail(("dtypes", kind, "vertices_differ_from_float_parameters"), case, observed=va, expected=vb)
+            return
+        for qx in (px, px + 1, px + 2, px + 3, px - 1):
+            got, want = bool(a.is_point_inside_shape(conv(qx))), bool(b.is_point_inside_shape(complex(qx)))
+            if got != want:
+                chk.fail(("dtypes", kind, "containment_of_integer_point"), dict(case, point=qx), observed=got, expected=want)
+        for ang in (0, 30, 45, 90, -120, 180):
+            got = complex(a.get_border_point(conv(ang), conv(1)))
+            want = complex(b.get_border_point(float(ang), 1.0))
+            if not abs(got - want) <= TOL * r:
+                chk.fail(("dtypes", kind, "border_point_of_integer_angle"), dict(case, angle=ang), observed=got, expected=want)
+        if kind in ("Cell", "Cell3Sec", "CellSquare"):
+            angs = np.array([0, 1, 90, 1, 200])[::2] if form != "pyint" else [0, 90, 200]
+            a.add_border_user(angs, np.array([0.5, 1.0, 0.25]))
+            b.add_border_user([0.0, 90.0, 200.0], [0.5, 1.0, 0.25])
+            pa, pb = [complex(u.pos) for u in a.users], [complex(u.pos) for u in b.users]
+            if len(pa) != 3 or max(abs(x - y) for x, y in zip(pa, pb)) > TOL * r:
+                chk.fail(("dtypes", kind, "add_border_user_integer_angles"), case, observed=pa, expected=pb)
+            su = scripted_defaults()
+            with patched((np.random, "random_sample", su.random_sample)):
+                a.add_random_users(2 if form == "np_float64" else conv(2), None, conv(0))
+            su = scripted_defaults()
+            with patched((np.random, "random_sample", su.random_sample)):
+                b.add_random_users(2, None, 0.0)
+            pa, pb = [complex(u.pos) for u in a.users], [complex(u.pos) for u in b.users]
+            if len(pa) != 5 or max(abs(x - y) for x, y in zip(pa, pb)) > TOL * r:
+                chk.fail(("dtypes", kind, "add_random_users_integer_parameters"), case, observed=pa, expected=pb)
+        chk.nontriv(("dtypes", kind, form))
+
+
+# ----------------------------------------------------------------------
 def jobs(tier):
-    """(light jobs dealt round-robin, split E2 jobs executed by every shard on its share of the subtrees)"""
+    """(cluster-sequence jobs [run first, each in a fork of the still clean worker], light jobs dealt
+    round-robin, split E2 jobs executed by every shard on its share of the subtrees)"""
     out = []
-    for cfg in shape_configs():
+    for cfg in shape_configs(tier):
         out.append(("contains", cfg + (41 if tier == "thorough" else 29,)))
         out.append(("border", cfg))
         if cfg[0] in ("Cell", "Cell3Sec", "CellSquare"):
@@ -961,6 +1484,16 @@ def jobs(tier):
         out.append(("cluster", cfg))
     for cfg in pp_configs(tier):
         out.append(("pp", cfg))
+    depth = 3 if tier == "thorough" else 2
+    for kind in HIST_KINDS:
+        for h in histories(kind, depth):
+            out.append(("history", (kind, h)))
+    for kind in SHAPE_KINDS + ["Cluster", "calc_rotated_pos"]:
+        out.append(("aliasing", (kind,)))
+    out.append(("pp_aliasing", ()))
+    for kind in ("Hexagon", "Rectangle", "Circle", "Cell", "Cell3Sec", "CellSquare", "Cluster"):
+        for form in DTYPE_FORMS:
+            out.append(("dtypes", (kind, form)))
     rj = random_jobs(tier)
     rnd = [("random", j) for j in rj if j[3] == 0]
     split = [("random", j) for j in rj if j[3] > 0]
@@ -975,7 +1508,8 @@ def jobs(tier):
             if nxt is not None:
                 res.append(nxt)
     res.extend(it)
-    return res, split
+    seqs = [("cluster_sequence", (q,)) for q in cluster_sequences(tier)]
+    return seqs, res, split
 
 
 def run_job(chk, job, shard_i=0, shard_n=1):
@@ -990,6 +1524,16 @@ def run_job(chk, job, shard_i=0, shard_n=1):
         run_cluster(chk, *cfg)
     elif part == "pp":
         run_pp(chk, *cfg)
+    elif part == "history":
+        run_history(chk, *cfg)
+    elif part == "aliasing":
+        run_aliasing(chk, *cfg)
+    elif part == "pp_aliasing":
+        run_pp_aliasing(chk)
+    elif part == "dtypes":
+        run_dtypes(chk, *cfg)
+    elif part == "cluster_sequence":
+        run_cluster_sequence(chk, *cfg)
     elif part == "random":
         c, nusers, bound, split = cfg
         run_random(chk, c, bound, nusers, split, shard_i, shard_n)
@@ -1005,6 +1549,17 @@ def main(chk: Check):
     chk.assume("random placement through CellWrap is outside the domain (CellWrap.users reports the wrapped "
                "cell's users); CellWrap is covered for containment, border points and wrap-around layout")
     chk.assume("Cell3Sec polygons are star-shaped w.r.t. the cell centre, so the border point per angle is unique")
+    chk.assume("a Rectangle / CellSquare is sized by its corners: the inherited `radius` setter is not a way to "
+               "resize it and is left out of the setter histories (pos and rotation setters are in)")
+    chk.assume("documented parameter types only: an int `ratio` for add_border_user and an int min_dist_ratio for "
+               "Cluster.add_random_users are rejected by the library's own asserts and are not in the domain; "
+               "float32 inputs are not in the domain (their rounding exceeds the 1e-9 r tolerance)")
+    chk.assume("every cluster sequence runs in a fork of a worker that has not built any cluster, so class-level "
+               "state starts empty for each sequence")
+    chk.extra["setter_history_depth"] = 3 if tier == "thorough" else 2
+    chk.extra["quick_tier_design"] = ("covering design over pos x radius x rotation for containment, border points, "
+                                      "clusters and E2 (every kind x every rotation; all pos/radius pairs); thorough "
+                                      "= full product")
     chk.extra["tolerance_relative_to_radius"] = TOL
     chk.extra["boundary_probe_offset_relative_to_radius"] = PROBE
     chk.extra["e2_deviation_bounds_completed"] = [
@@ -1012,9 +1567,11 @@ def main(chk: Check):
         for n, b in plan]
     chk.extra["e2_alphabet"] = ALPHA
     chk.extra["e2_default_stream"] = "%d directions at %.4f r, cyclic" % (NDIR, DEFAULT_RATIO)
-    light, split = jobs(tier)
+    seqs, light, split = jobs(tier)
 
     def worker(i, n, c):
+        for job in shard(iter(seqs), i, n):       # first: the worker has not built any cluster yet
+            run_job(c, job)
         for job in shard(iter(light), i, n):
             run_job(c, job)
         for job in split:
@@ -1031,6 +1588,7 @@ def main(chk: Check):
     chk.require_outcomes("placement_attempts", 3)
     chk.require_outcomes("cluster_layouts", 12)
     chk.require_outcomes("distance_matrix_shapes", 6)
+    chk.require_outcomes("history_last_event", 10)
 
 
 def replay(case, chk: Check):
@@ -1058,5 +1616,17 @@ def replay(case, chk: Check):
         region = placement_region(cfg[0], cfg[1], cfg[2], cfg[3], cfg[4])
         run = make_random_run(chk, cfg, case.get("num_users", 1), region)
         run(Ctx(list(case.get("choices", [])), None, HORIZON))
+    elif part == "history":
+        hist = tuple((nm, v) for nm, v in case["events"])
+        run_history(chk, case["kind"], hist)
+    elif part == "cluster_sequence":
+        run_cluster_sequence(chk, tuple(case["sequence"]))
+    elif part == "aliasing":
+        if case["kind"] == "pointprocess":
+            run_pp_aliasing(chk)
+        else:
+            run_aliasing(chk, case["kind"])
+    elif part == "dtypes":
+        run_dtypes(chk, case["kind"], case["form"])
     else:
         raise Broken("unknown replay case %r" % (case,))
